@@ -11,5 +11,8 @@ mod inbound;
 mod alias;
 mod wire;
 mod limits;
+mod driver_tokio;
+mod refdec;
+mod refenc;
 
 pub(crate) fn tier_thorough() -> bool { std::env::var("VERIF_TIER").map(|v| v == "thorough").unwrap_or(false) }
